@@ -459,6 +459,7 @@ type 'atom pv =
 type ('atom, 'cv) sval =
 | SObj of 'atom pv
 | SC of 'cv
+| SDangling
 
 type pytype = { t_hier : hierarchy; t_pydict : bool }
 
@@ -509,6 +510,7 @@ type err =
 | ENoDict
 | EDictUpdate
 | EAttr of name
+| EUB
 | EOther
 
 type 'a res =
@@ -527,6 +529,7 @@ let accepted hash avail f ns =
 let item_of to_py m = function
 | SObj p -> p
 | SC c -> PAtom (to_py m.m_kind c)
+| SDangling -> PNone
 
 (** val read_state :
     (kind -> 'a2 -> 'a1) -> member list -> ('a1, 'a2) obj -> 'a1 pv list res **)
@@ -537,9 +540,12 @@ let rec read_state to_py ms o =
   | m :: r ->
     (match get o.o_slots m.m_name with
      | Some v ->
-       (match read_state to_py r o with
-        | Ok l -> Ok ((item_of to_py m v) :: l)
-        | Err e -> Err e)
+       (match v with
+        | SDangling -> Err EUB
+        | _ ->
+          (match read_state to_py r o with
+           | Ok l -> Ok ((item_of to_py m v) :: l)
+           | Err e -> Err e))
      | None -> Err (EAttr m.m_name))
 
 (** val not_none : 'a1 pv -> bool **)
@@ -605,12 +611,19 @@ let conv_in from_py m p =
   match m.m_kind with
   | KObj -> Some (SObj p)
   | KC (conv, is_struct0, is_ptr) ->
-    (match p with
-     | PAtom a ->
-       (match from_py (KC (conv, is_struct0, is_ptr)) a with
-        | Some c -> Some (SC c)
-        | None -> None)
-     | _ -> None)
+    if is_ptr
+    then (match p with
+          | PAtom a ->
+            (match from_py m.m_kind a with
+             | Some _ -> Some SDangling
+             | None -> None)
+          | _ -> None)
+    else (match p with
+          | PAtom a ->
+            (match from_py (KC (conv, is_struct0, false)) a with
+             | Some c -> Some (SC c)
+             | None -> None)
+          | _ -> None)
 
 (** val assign :
     (kind -> 'a1 -> 'a2 option) -> member list -> nat -> 'a1 pv list -> ('a1,
